@@ -27,7 +27,7 @@ func registerAll() {
 	reg("R4", "notify-parent: every exported mutator of Array/OrderedMap (computed from may-effects on slab state) calls notifyParentIfNeeded on every success path (extra-data-only mutators may instead store the standalone root on the not-inlined edge)", ruleR4)
 
 	reg("R5", "callback-install: every stored child handed out (StoredValue of a looked-up value) or stored (root.Set/Insert of a caller value) passes setCallbackWithChild on every success path with the container's inline limit; read-only iterators arm setMutationCallback", ruleR5)
-	reg("R7", "detached child is materialised: every Storable returned by an exported Array/OrderedMap method is the result of uninlineStorableIfNeeded", ruleR7)
+	reg("R7", "detached child is materialised: every Storable returned by an exported Array/OrderedMap method is the result of uninlineStorableIfNeeded; an element overwritten with the very container it already holds is told apart first and not uninlined", ruleR7)
 	reg("N1", "the mutableElementIndex entry of a removed/overwritten child is deleted, guarded only by identity tests; a bulk pop resets the whole index", ruleN1)
 	reg("N2", "parent-updater callbacks re-set the child only on paths that passed a ValueID.equal==true edge and after a fresh lookup", ruleN2)
 	reg("N3", "parentUpdater is assigned only by setParentUpdater and cleared only on the not-found edge of its own invocation", ruleN3)
@@ -81,6 +81,7 @@ func registerAll() {
 	reg("X8", "no silent skip on a family downcast: a comma-ok assertion of a slab / element / element-list interface value to one member either reports the other members as an error or rejoins the common path; an early success return on the not-ok edge is a silent skip", ruleX8)
 	reg("L17", "batch builders: the next tree level is built only from a slice tested (after its last change) to hold at least two slabs; the underfull last slab of a level merges only where its left sibling cannot lend and borrows only where it can", ruleL17)
 	reg("N4", "identity predicate: ValueID.equal(SlabID) is true exactly when address and index both match (evaluated on the four truth assignments of its component comparisons; halves checked from the slice bounds)", ruleN4)
+	reg("L18", "encodability of inlined containers: for every slab size, a slab cannot hold more inlined containers than the one-byte inlined-extra-data index can address (affine bound over setThreshold)", ruleL18)
 	reg("I2", "iterator cursor advance: every exit of a Next/next method that hands out an element is preceded on all paths by a write of the iterator's cursor state (own field, nested iterator, or delegation to its own Next)", ruleI2)
 	reg("I3", "range validation: the range iterator constructors reject start > end and bounds beyond the count", ruleI3)
 
@@ -93,144 +94,143 @@ func registerAll() {
 
 	const tCFG = "CFG path rules on go/ssa (must-precede, edge dominance, loop-iteration coverage, error-edge reachability)"
 	propTable["C01"] = &PropSpec{
-		ID:    "C01",
-		Rules: []string{"L8", "L7", "L9", "R6", "B1", "L6", "R1", "N1", "N2", "N4", "L16"},
-		Explanation: "structural necessary conditions of sequence behaviour: every index-out-of-bounds rejection is taken exactly when the request is out of range for the operation (index >= count for access, index > count for insertion; decided by case analysis over the three orderings of index and bound) and cannot be passed when out of range; whatever replaces the root carries the id read from the previous root (so the array can always be reopened by its identifier); every write of an element list or child header table is accompanied on every success path by the matching size / count / cumulative-count update; after a child mutation every success path evaluates the split / merge decision and refreshes the parent's header copy, and the handle evaluates root.IsFull and single-child promotion; out-of-range requests are rejected before any effect; elements are materialised with the array's inline limit; every slab mutated or created by an operation is stored (or its parent notified) before the operation returns, so a later reopen by the root identifier sees the same sequence; the index kept for nested containers is deleted with the element it tracks and reset by a bulk pop (a stale entry makes the next in-range Insert fail); a nested container's parent-updater callback writes into the array only after confirming, by value id, that the slot still holds that container. Cached sizes start from the encoded prefix of the object's kind and state wherever they are established or re-based (a wrong prefix wraps around on the next re-basing and makes an in-range request fail in splitRoot).",
-		NotDecided: "that returned elements equal the sequence model: index routing (linear scan / binary search over cumulative counts), split/merge/borrow arithmetic and 'in-range requests never fail' are value-dependent and not decided statically.",
-		Technique:  "co-update path rules, must-pass-through rules and reject-before-effect typestate over go/ssa",
+		ID:          "C01",
+		Rules:       []string{"L8", "L7", "L9", "R6", "B1", "L6", "R1", "N1", "N2", "N4", "L16"},
+		Explanation: "structural necessary conditions of sequence behaviour: every index-out-of-bounds rejection is taken exactly when the request is out of range for the operation (index >= count for access, index > count for insertion; decided by case analysis over the three orderings of index and bound) and cannot be passed when out of range; whatever replaces the root carries the id read from the previous root (so the array can always be reopened by its identifier); every write of an element list or child header table is accompanied on every success path by the matching size / count / cumulative-count update; after a child mutation every success path evaluates the split / merge decision and refreshes the parent's header copy, and the handle evaluates root.IsFull and single-child promotion; out-of-range requests are rejected before any effect; elements are materialised with the array's inline limit; every slab mutated or created by an operation is stored (or its parent notified) before the operation returns, so a later reopen by the root identifier sees the same sequence; the index kept for nested containers is deleted with the element it tracks and reset by a bulk pop (a stale entry makes the next in-range Insert fail); a nested container's parent-updater callback writes into the array only after confirming, by value id, that the slot still holds that container. Cached sizes start from the encoded prefix of the object's kind and state wherever they are established or re-based (a wrong prefix wraps around on the next re-basing and makes an in-range request fail in splitRoot). An element overwritten with the very container it already holds is recognised before the overwritten storable is uninlined (otherwise the slab just stored as the new element is un-inlined under the parent).",
+		NotDecided:  "that returned elements equal the sequence model: index routing (linear scan / binary search over cumulative counts), split/merge/borrow arithmetic and 'in-range requests never fail' are value-dependent and not decided statically.",
+		Technique:   "co-update path rules, must-pass-through rules and reject-before-effect typestate over go/ssa",
 	}
 	propTable["C02"] = &PropSpec{
-		ID:    "C02",
-		Rules: []string{"L10", "L7", "L9", "R6", "K1", "K2", "L6", "R1", "N2", "N4", "L16", "X7"},
-		Explanation: "structural necessary conditions of dictionary behaviour: the element count changes exactly on (Set succeeded, no existing value) and on successful Remove; digests, elements and cached sizes are co-updated on every success path; the split / merge decision and header refresh follow every child mutation; absent keys and the collision limit are reported before any effect; keys and values are materialised with the key limit and a value limit derived from the same element's key; collision groups and element lists report their entry counts; every slab mutated or created is stored before the operation returns; a nested container's parent-updater callback writes into the map only after confirming, by value id, that the slot still holds that container. Cached sizes start from the encoded prefix of the object's kind and state wherever they are established or re-based (a wrong prefix wraps around on the next re-basing and makes an in-range request fail in splitRoot). Decoded element lists own their digest slices.",
-		NotDecided: "dictionary equivalence, digest routing (binary search over sorted digests), collision-group semantics: value-dependent.",
-		Technique:  "control-dependence and co-update path rules, reject-before-effect typestate",
+		ID:          "C02",
+		Rules:       []string{"L10", "L7", "L9", "R6", "K1", "K2", "L6", "R1", "N2", "N4", "L16", "X7"},
+		Explanation: "structural necessary conditions of dictionary behaviour: the element count changes exactly on (Set succeeded, no existing value) and on successful Remove; digests, elements and cached sizes are co-updated on every success path; the split / merge decision and header refresh follow every child mutation; absent keys and the collision limit are reported before any effect; keys and values are materialised with the key limit and a value limit derived from the same element's key; collision groups and element lists report their entry counts; every slab mutated or created is stored before the operation returns; a nested container's parent-updater callback writes into the map only after confirming, by value id, that the slot still holds that container. Cached sizes start from the encoded prefix of the object's kind and state wherever they are established or re-based (a wrong prefix wraps around on the next re-basing and makes an in-range request fail in splitRoot). Decoded element lists own their digest slices. An element overwritten with the very container it already holds is recognised before the overwritten storable is uninlined (otherwise the slab just stored as the new element is un-inlined under the parent).",
+		NotDecided:  "dictionary equivalence, digest routing (binary search over sorted digests), collision-group semantics: value-dependent.",
+		Technique:   "control-dependence and co-update path rules, reject-before-effect typestate",
 	}
 	propTable["C05"] = &PropSpec{
-		ID:    "C05",
-		Rules: []string{"L5", "L6", "L9", "L13", "L14", "L17", "L7", "L16", "X7"},
+		ID:          "C05",
+		Rules:       []string{"L5", "L6", "L9", "L13", "L14", "L17", "L7", "L16", "X7"},
 		Explanation: "for EVERY slab size t in [minSlabSize, maxSlabSize] (affine-interval abstract interpretation of setThreshold, not a sample): minThreshold is t/2, maxThreshold is 1.5t and fits the 16-bit size fields, two maximal array elements plus the slab prefix fit in t, two maximal map elements plus digests and prefixes fit in t, a maximal key plus an equal value fit the element limit, and no unsigned subtraction underflows; every element is materialised with the limit of its container kind; every mutation path runs the full / underflow decision and refreshes the index data it summarises (sizes, counts, cumulative counts, header copies). The batch builders build the next tree level only from at least two slabs and merge / rebalance the underfull last slab of a level on the correct decision edges. Cached sizes (which the parents' header tables copy) start from the encoded prefix of the object's kind and state wherever they are established or re-based; decoded element lists do not share their digest slices with other containers (an in-place edit of one would unsort another).",
-		NotDecided: "that split, lend/borrow and merge choose points that keep both sides inside the band (depends on element sizes); sortedness/uniqueness of digests and sibling links (value-level).",
-		Technique:  "affine-interval abstract interpretation (exhaustive over the symbolic slab size), value-flow checks on Storable() limits, must-pass-through path rules",
+		NotDecided:  "that split, lend/borrow and merge choose points that keep both sides inside the band (depends on element sizes); sortedness/uniqueness of digests and sibling links (value-level).",
+		Technique:   "affine-interval abstract interpretation (exhaustive over the symbolic slab size), value-flow checks on Storable() limits, must-pass-through path rules",
 	}
 	propTable["C03"] = &PropSpec{
-		ID:    "C03",
-		Rules: []string{"R1", "R2", "R4", "S1", "S2", "S3", "S4", "S5"},
+		ID:          "C03",
+		Rules:       []string{"R1", "R2", "R4", "S1", "S2", "S3", "S4", "S5"},
 		Explanation: "every slab mutated or created on a success path is stored or removed before the API call returns (typestate over slab objects with interprocedural summaries; re-keyed slabs need a later store; stores guarded by !inlined hand over to the notify-parent rule), every allocated id becomes a slab identity, every exported mutator notifies its parent; registers are written or deleted only by routines reachable exclusively through the commit entry points (call-graph closure over every exported/API function); Ledger.SetValue only inside the BaseStorage adapter; every collector of commit keys guards each key by address != AddressUndefined and records every owned key; every completed apply-loop iteration issues a register write; no register-write/encode/worker error is swallowed by a commit that returns nil.",
-		NotDecided: "that the encoded content equals the in-memory content (C07), determinism (C04); batch builders are analysed with weak updates on their slab collections.",
-		Technique:  "call-graph reachability (who-may-write-registers) + " + tCFG,
+		NotDecided:  "that the encoded content equals the in-memory content (C07), determinism (C04); batch builders are analysed with weak updates on their slab collections.",
+		Technique:   "call-graph reachability (who-may-write-registers) + " + tCFG,
 	}
 	propTable["C04"] = &PropSpec{
-		ID:    "C04",
-		Rules: []string{"D1", "D2", "D3", "D4", "S6", "G2"},
+		ID:          "C04",
+		Rules:       []string{"D1", "D2", "D3", "D4", "S6", "G2"},
 		Explanation: "no Go-map iteration order can reach results: every map range in deterministic code is collect-then-sort or commutative, order-relaxed routines are unreachable from deterministic entry points; the deterministic commit walks, first to last, a slice that its collector sorts on every path with a comparator that is decided by order abstraction (all 9 address x index orderings) to be ascending (owner, index), with big-endian integer views; worker results are applied by key only after the drain; the map seed derives only from the fresh slab id / an existing seed; pooled objects are Reset before reuse and Reset covers every field read; no clock, randomness, address or scheduling source is imported or used.",
-		NotDecided: "determinism of client Value/TypeInfo encoders and of the CBOR library; byte-identity of two executions as such.",
-		Technique:  "map-range classification over SSA loops, order-abstraction interpretation of the sort comparator, backward slices (seed), import/AST scan",
+		NotDecided:  "determinism of client Value/TypeInfo encoders and of the CBOR library; byte-identity of two executions as such.",
+		Technique:   "map-range classification over SSA loops, order-abstraction interpretation of the sort comparator, backward slices (seed), import/AST scan",
 	}
 	propTable["C15"] = &PropSpec{
-		ID:    "C15",
-		Rules: []string{"S1", "S2", "S3", "S7", "S8", "S9"},
+		ID:          "C15",
+		Rules:       []string{"S1", "S2", "S3", "S7", "S8", "S9"},
 		Explanation: "layering of the write-back overlay: lookups consult write set, then read cache (only on the write-set miss edge), then ledger (only on the cache miss edge) and a hit returns the found entry; cache fills are guarded by the cache flag and hold DecodeSlab of the same id; a frozen ownership table says which routine may update / delete / replace each field of PersistentSlabStorage (Store/Remove add to deltas, only register-writing routines retire entries, only DropDeltas/DropCache replace a map, BatchPreload fills only the cache and pre-sizes it only when empty); commit moves an entry to the cache (nil after Remove, the write-set object after Store) and deletes it only on the success edge; temp-address ids never reach a register call; every exported observer is unable to reach a writer of the write set or of registers.",
-		NotDecided: "the value-level state-machine closure (that the sequence of views equals the model for every history).",
-		Technique:  "field-write ownership table + dominance of lookups + call-graph reachability for observers + " + tCFG,
+		NotDecided:  "the value-level state-machine closure (that the sequence of views equals the model for every history).",
+		Technique:   "field-write ownership table + dominance of lookups + call-graph reachability for observers + " + tCFG,
 	}
 	propTable["C16"] = &PropSpec{
-		ID:    "C16",
-		Rules: []string{"G1", "G2", "G3", "G4", "G5", "D4"},
+		ID:          "C16",
+		Rules:       []string{"G1", "G2", "G3", "G4", "G5", "D4"},
 		Explanation: "every goroutine body's transitive may-effect set has no write to storage, container, slab or global state and no write through captured variables; maps read by workers are written by the launcher only after a receive loop counted to the number of queued jobs; workers defer wg.Done, wg.Add(n) dominates a loop launching n workers, close(results) is deferred after wg.Wait, job/result channels are buffered; after a non-deferred put no use of the pooled object or an alias is reachable (up to re-definition), with a deferred put no alias escapes; objects are Reset before Pool.Put; no package variable can be written after init through any API function. A pooled object is put at most once per Get (no non-deferred put beside a deferred one); the result channel has the capacity of the job queue whenever workers send unconditionally.",
-		NotDecided: "sequential equality of the results of a concurrent run (only through C04), races inside client callbacks, retention of pooled objects by callees.",
-		Technique:  "may-effect summaries over the call graph, dominance by drain-loop exits, alias taint for pooled objects",
+		NotDecided:  "sequential equality of the results of a concurrent run (only through C04), races inside client callbacks, retention of pooled objects by callees.",
+		Technique:   "may-effect summaries over the call graph, dominance by drain-loop exits, alias taint for pooled objects",
 	}
 	propTable["C10"] = &PropSpec{
-		ID:    "C10",
-		Rules: []string{"R4", "R5", "R1", "L8", "N1", "N2", "N4", "L9", "L6", "L12", "L16", "X7"},
-		Explanation: "every exported mutator of Array/OrderedMap (computed from may-effects on slab state over a closure-granular call graph) calls notifyParentIfNeeded on every success path (extra-data-only mutators may store the standalone root on the not-inlined edge instead); every child handed out by lookup/mutable iteration or stored by Set/Insert passes setCallbackWithChild on every success path with the container's own inline limit (array: maxInlineArrayElementSize; map: maxInlineMapValueSize of that element's key storable size); read-only iterators arm the mutation callback; whatever replaces a container's root carries the id read from the previous root before any id change, and ValueID does not depend on the inlined state. Parent-updater callbacks re-validate the child's identity (address and index) before writing, so a mutation reaches the slot that holds this child and no other. Cached sizes start from the encoded prefix of the object's kind and state wherever they are established or re-based (a wrong prefix wraps around on the next re-basing and makes an in-range request fail in splitRoot). Decoded children own their digest slices (a reloaded sibling is not disturbed by a mutation through another child's handle).",
-		NotDecided: "that the callback finds the right element after arbitrary parent restructuring (mutableElementIndex arithmetic), 'inlined exactly when it fits' (value-dependent), validity of ancestors.",
-		Technique:  "must-pass-through path rule over go/ssa CFG with interprocedural must-notify summaries; may-effect summaries to compute the mutator set; value-flow checks on callback arguments and root ids",
+		ID:          "C10",
+		Rules:       []string{"R4", "R5", "R1", "L8", "N1", "N2", "N4", "L9", "L6", "L12", "L16", "X7", "L18"},
+		Explanation: "every exported mutator of Array/OrderedMap (computed from may-effects on slab state over a closure-granular call graph) calls notifyParentIfNeeded on every success path (extra-data-only mutators may store the standalone root on the not-inlined edge instead); every child handed out by lookup/mutable iteration or stored by Set/Insert passes setCallbackWithChild on every success path with the container's own inline limit (array: maxInlineArrayElementSize; map: maxInlineMapValueSize of that element's key storable size); read-only iterators arm the mutation callback; whatever replaces a container's root carries the id read from the previous root before any id change, and ValueID does not depend on the inlined state. Parent-updater callbacks re-validate the child's identity (address and index) before writing, so a mutation reaches the slot that holds this child and no other. Cached sizes start from the encoded prefix of the object's kind and state wherever they are established or re-based (a wrong prefix wraps around on the next re-basing and makes an in-range request fail in splitRoot). Decoded children own their digest slices (a reloaded sibling is not disturbed by a mutation through another child's handle). An element overwritten with the very container it already holds is recognised before the overwritten storable is uninlined (otherwise the slab just stored as the new element is un-inlined under the parent). For every slab size a slab can hold no more inlined containers than the one-byte inlined-extra-data index addresses (else a later commit cannot encode it; known finding).",
+		NotDecided:  "that the callback finds the right element after arbitrary parent restructuring (mutableElementIndex arithmetic), 'inlined exactly when it fits' (value-dependent), validity of ancestors.",
+		Technique:   "must-pass-through path rule over go/ssa CFG with interprocedural must-notify summaries; may-effect summaries to compute the mutator set; value-flow checks on callback arguments and root ids",
 	}
 	propTable["C11"] = &PropSpec{
-		ID:    "C11",
-		Rules: []string{"R7", "N1", "N2", "N4", "N3", "R3"},
-		Explanation: "every Storable returned by an exported Array/OrderedMap method is the result of uninlineStorableIfNeeded (so a detached inlined child becomes a stored standalone slab) and that helper uninlines both slab kinds; the mutableElementIndex entry of a removed/overwritten child is deleted, guarded only by identity tests; parent-updater callbacks re-set the child only on paths that passed the true edge of a ValueID.equal test and after a fresh lookup; parentUpdater is assigned only by setParentUpdater and cleared only on the not-found edge of its own invocation. The identity predicate ValueID.equal(SlabID) is the conjunction of address equality and index equality on the right halves of the value id; a bulk pop resets the child index.",
-		NotDecided: "that re-validation compares the right element after arbitrary histories; equality of identity after reattachment.",
-		Technique:  "value-flow on return operands, control-dependence slices, edge-restricted reachability in callback closures",
+		ID:          "C11",
+		Rules:       []string{"R7", "N1", "N2", "N4", "N3", "R3"},
+		Explanation: "every Storable returned by an exported Array/OrderedMap method is the result of uninlineStorableIfNeeded (so a detached inlined child becomes a stored standalone slab) and that helper uninlines both slab kinds; the mutableElementIndex entry of a removed/overwritten child is deleted, guarded only by identity tests; parent-updater callbacks re-set the child only on paths that passed the true edge of a ValueID.equal test and after a fresh lookup; parentUpdater is assigned only by setParentUpdater and cleared only on the not-found edge of its own invocation. The identity predicate ValueID.equal(SlabID) is the conjunction of address equality and index equality on the right halves of the value id; a bulk pop resets the child index. An element overwritten with the very container it already holds is recognised before the overwritten storable is uninlined (otherwise the slab just stored as the new element is un-inlined under the parent).",
+		NotDecided:  "that re-validation compares the right element after arbitrary histories; equality of identity after reattachment.",
+		Technique:   "value-flow on return operands, control-dependence slices, edge-restricted reachability in callback closures",
 	}
 	propTable["C06"] = &PropSpec{
-		ID:    "C06",
-		Rules: []string{"L1", "L2", "L16", "L7", "L8"},
+		ID:          "C06",
+		Rules:       []string{"L1", "L2", "L16", "L7", "L8"},
 		Explanation: "each prefix / stride size constant equals, by value, the number of bytes its encoder writes outside child elements and extra-data sections (abstract interpretation of every slab and element encoder: fixed-width writes, per-entry loop bytes, spliced helper encoders, two-pass element buffer emitted exactly once); the only conditional group of a data-slab encoder is the sibling link and it is exactly the difference between the non-root and root constants (the documented 16-byte saving); the compact inlined-map form has the same inlined prefix and no fixed per-element bytes, so it can only be shorter; decoders start a decoded slab's size from the same prefix getPrefixSize() returns for that state (root / non-root / inlined); every write of an element list or the inlined flag is accompanied by a size update on all success paths. Every cached size that is established or re-based (slab literals, absolute and re-basing assignments, computed size functions) carries, in its constant part, the encoded prefix of the object kind in the state before / after (root, non-root, inlined for data slabs; one prefix plus whole per-entry constants for every other kind).",
-		NotDecided: "that the incremental += / -= bookkeeping sums to the same total on every history (value-level); honesty of client Storable.ByteSize().",
-		Technique:  "abstract interpretation of encoder write widths over go/ssa, per-state constant-part evaluation of decoder size expressions, co-update path rule",
+		NotDecided:  "that the incremental += / -= bookkeeping sums to the same total on every history (value-level); honesty of client Storable.ByteSize().",
+		Technique:   "abstract interpretation of encoder write widths over go/ssa, per-state constant-part evaluation of decoder size expressions, co-update path rule",
 	}
 	propTable["C07"] = &PropSpec{
-		ID:    "C07",
-		Rules: []string{"L3", "L4", "L11", "L15", "L1", "X1"},
+		ID:          "C07",
+		Rules:       []string{"L3", "L4", "L11", "L15", "L1", "X1"},
 		Explanation: "header flags: each setter/getter pair uses the same byte and single-bit mask, disjoint from type and version bits; each slab encoder sets each flag exactly under the state it describes (root <=> extra data, has-pointers <=> HasPointer(), next <=> sibling link, any-size <=> anySize, inlined-slabs <=> collected extra data) and the V1 decoders and raw-bytes queries consult exactly those flags; vocabularies coincide: every CBOR tag emitted is dispatched (in-package or, by table, by the client decoder) and vice versa, tag numbers are distinct, slab kinds emitted equal kinds dispatched by DecodeSlab, encoders emit version 1 and decoders accept exactly versions 0 and 1; encoders use fixed-width heads matching the size constants; decode dispatch covers every element kind. The key under which the encoder shares one extra-data entry between inlined containers depends on the encoded type information and on every field name, so containers of different type never share an entry.",
-		NotDecided: "byte-for-byte round trip of arbitrary nested content, compact-map ordering, rejection of trailing bytes.",
-		Technique:  "mask/guard checks on go/ssa, AST vocabulary comparison of encoder and decoder sides, encoder width interpretation",
+		NotDecided:  "byte-for-byte round trip of arbitrary nested content, compact-map ordering, rejection of trailing bytes.",
+		Technique:   "mask/guard checks on go/ssa, AST vocabulary comparison of encoder and decoder sides, encoder width interpretation",
 	}
 	propTable["C08"] = &PropSpec{
-		ID:    "C08",
-		Rules: []string{"R1", "S3", "S7", "S8", "S9", "L2", "L11", "X7"},
+		ID:          "C08",
+		Rules:       []string{"R1", "S3", "S7", "S8", "S9", "L2", "L11", "X7"},
 		Explanation: "a slab served from the read cache (or decoded) that is then mutated re-enters the write set because every mutation ends in a store of that object on every success path; commit moves the very same object from the write set into the cache (nil after a deletion) and only on the success edge; apart from that only DecodeSlab results under the same id enter the cache, controlled by the cache flag; lookups consult write set, cache, ledger in that order and a hit returns the found entry; observers cannot reach a writer of the write set. Decoded slabs, element lists and extra data never alias the slab-wide inlined extra data (no slice, map or pointer reachable from it by loads alone is stored into them).",
-		NotDecided: "equality of decoded and original content (C07) and the compact-map reload exception; byte-identity under all schedules.",
-		Technique:  "typestate over slab objects + field-write ownership + dominance of lookups",
+		NotDecided:  "equality of decoded and original content (C07) and the compact-map reload exception; byte-identity under all schedules.",
+		Technique:   "typestate over slab objects + field-write ownership + dominance of lookups",
 	}
 	propTable["C09"] = &PropSpec{
-		ID:    "C09",
-		Rules: []string{"R1", "R2", "R3", "R7", "N2", "N4", "X2", "X1"},
-		Explanation: "every new or modified slab is stored, every allocated id becomes a slab identity, every detach event (merge, bulk pop of children, inline, root promotion, external collision group collapse/pop) removes the register and uninline stores it, on every success path; every Storable handed back by an exported Array/OrderedMap method went through uninlineStorableIfNeeded (a detached inlined child becomes a stored standalone slab the caller can dispose of); every field of a slab/element type that can hold a slab reference is read by the ChildStorables call graph (so references are enumerable and removable), with sibling links and own ids exempt by table; every slab/element kind is handled by every family type switch. A detached child's parent-updater writes into its former parent only after its identity (value id: address and index) was confirmed for the slot: otherwise a stale handle evicts a live value that is never handed back (leaked slabs).",
-		NotDecided: "'referenced exactly once' and owner equality (facts about runtime id values).",
-		Technique:  "value-flow on return operands, field-read coverage over the ChildStorables call graph, type-switch exhaustiveness over closed families",
+		ID:          "C09",
+		Rules:       []string{"R1", "R2", "R3", "R7", "N2", "N4", "X2", "X1"},
+		Explanation: "every new or modified slab is stored, every allocated id becomes a slab identity, every detach event (merge, bulk pop of children, inline, root promotion, external collision group collapse/pop) removes the register and uninline stores it, on every success path; every Storable handed back by an exported Array/OrderedMap method went through uninlineStorableIfNeeded (a detached inlined child becomes a stored standalone slab the caller can dispose of); every field of a slab/element type that can hold a slab reference is read by the ChildStorables call graph (so references are enumerable and removable), with sibling links and own ids exempt by table; every slab/element kind is handled by every family type switch. A detached child's parent-updater writes into its former parent only after its identity (value id: address and index) was confirmed for the slot: otherwise a stale handle evicts a live value that is never handed back (leaked slabs). An element overwritten with the very container it already holds is recognised before the overwritten storable is uninlined (otherwise the slab just stored as the new element is un-inlined under the parent).",
+		NotDecided:  "'referenced exactly once' and owner equality (facts about runtime id values).",
+		Technique:   "value-flow on return operands, field-read coverage over the ChildStorables call graph, type-switch exhaustiveness over closed families",
 	}
 	propTable["C12"] = &PropSpec{
-		ID:    "C12",
-		Rules: []string{"K1", "K2", "R6", "X1", "R1", "R3", "L9"},
+		ID:          "C12",
+		Rules:       []string{"K1", "K2", "R6", "X1", "R1", "R3", "L9"},
 		Explanation: "the collision-limit rejection is control dependent on level == 0, on a comparison with maxCollisionLimitPerDigest and on errors.As(KeyNotFoundError) of Get with the same key parameter (so updates of existing keys are never refused), and no mutation, store or allocation precedes it on any path; every element kind (single element, inline group, external group) and both element-list kinds are handled by every family type switch or by an erroring default. Collision groups and element lists report their true entry counts (the limit counts entries through element.Count).",
-		NotDecided: "dictionary semantics under arbitrary digest assignments; correctness of spill/collapse transitions (value-dependent).",
-		Technique:  "control-dependence slices and backward reachability on go/ssa; type-switch exhaustiveness",
+		NotDecided:  "dictionary semantics under arbitrary digest assignments; correctness of spill/collapse transitions (value-dependent).",
+		Technique:   "control-dependence slices and backward reachability on go/ssa; type-switch exhaustiveness",
 	}
 	propTable["C13"] = &PropSpec{
-		ID:    "C13",
-		Rules: []string{"X4", "I2", "I3", "X1", "X8", "R5", "R6"},
+		ID:          "C13",
+		Rules:       []string{"X4", "I2", "I3", "X1", "X8", "R5", "R6"},
 		Explanation: "every exit of an iterator Next method that hands out an element is preceded on all paths by a cursor advance; range constructors reject start > end and bounds beyond the count before building an iterator and leave no trace; Next/NextKey/NextValue of each iterator type write the same cursor fields (no flavour can skip or repeat relative to its siblings); every slab/element kind is handled by the iterator type switches (no silent skip); mutable iteration hands out children with the parent callback installed, read-only iterators arm the mutation error on every element. A comma-ok downcast of a slab / element / element-list value to one family member never returns success early on the not-ok edge (no member of the family is silently skipped while looking for the next element).",
-		NotDecided: "exactly-once, canonical order and the loaded-subset subsequence property (value-level).",
-		Technique:  "may-effect comparison of sibling methods, type-switch exhaustiveness, must-pass-through path rule",
+		NotDecided:  "exactly-once, canonical order and the loaded-subset subsequence property (value-level).",
+		Technique:   "may-effect comparison of sibling methods, type-switch exhaustiveness, must-pass-through path rule",
 	}
 	propTable["C17"] = &PropSpec{
-		ID:    "C17",
-		Rules: []string{"X5", "X6", "R1", "R2", "L14", "L17"},
+		ID:          "C17",
+		Rules:       []string{"X5", "X6", "R1", "R2", "L14", "L17"},
 		Explanation: "for every type with a can-copy/copy pair the predicate is constant false exactly when the operation fails on every path, and non-constant predicates refuse on exactly the receiver state the operation fails on (the rest is delegated to the elements' own pair); every slice/map/pointer field of a copy receives a fresh or cloned value, never one loaded from the source. The batch builders build the next tree level only from at least two slabs (tested on the slice after the tail merge) and merge / rebalance the underfull last slab of a level on the correct decision edges.",
-		NotDecided: "equality of content, validity 'as if built by individual operations' (tail-rebalance arithmetic), byte-array conversions.",
-		Technique:  "return-constant and control-dependence comparison of sibling methods; alias check on stores into the fresh result",
+		NotDecided:  "equality of content, validity 'as if built by individual operations' (tail-rebalance arithmetic), byte-array conversions.",
+		Technique:   "return-constant and control-dependence comparison of sibling methods; alias check on stores into the fresh result",
 	}
 	propTable["C18"] = &PropSpec{
-		ID:    "C18",
-		Rules: []string{"R6", "B1", "E1", "E2", "K1"},
+		ID:          "C18",
+		Rules:       []string{"R6", "B1", "E1", "E2", "K1"},
 		Explanation: "in every function that can return a request rejection (index/range out of bounds, absent key, collision limit, element-count limit, undefined identifier; propagated interprocedurally but not across the storage component boundary) no mutation, store, removal, id allocation, write-set change or Value.Storable call precedes the rejection on any path; each rejection constructor named by the property ends in the contract's category constructor (index/range/absent key/element count/element type -> UserError; collision limit, undefined id, slab not found -> FatalError), every other constructor is categorised, the category types keep Unwrap and the wrap helper recognises all three categories; no error returned by a caller-supplied component (Ledger, BaseStorage, SlabStorage, DigesterBuilder, ValueComparator, HashInputProvider) leaves a function raw; the collision-limit rejection precedes every effect.",
-		NotDecided: "message text ('error names the cause'); effects inside client callbacks (Value.Storable is treated as an effect).",
-		Technique:  "constructor delegation resolution, taint from interface/func-value call results to return operands, backward reachability",
+		NotDecided:  "message text ('error names the cause'); effects inside client callbacks (Value.Storable is treated as an effect).",
+		Technique:   "constructor delegation resolution, taint from interface/func-value call results to return operands, backward reachability",
 	}
 	propTable["C19"] = &PropSpec{
-		ID:    "C19",
-		Rules: []string{"P2", "P3", "P5", "P6", "P7", "P8", "X1"},
+		ID:          "C19",
+		Rules:       []string{"P2", "P3", "P5", "P6", "P7", "P8", "X1"},
 		Explanation: "over the whole decode scope (everything reachable from DecodeSlab, the raw-header queries, the inlined-storable decoders and the size/child-reference accessors): no explicit panic except the unreachable tail of an exhaustive family switch; no unproven single-result type assertion; every slice expression, index and fixed-width big-endian read is covered by a dominating length fact (constant and exact guards tracked through reslicing and phis, call-site facts for private helpers, success post-conditions of helpers, range loops, symbolic guards, count==len guards) or by the stride-loop / chunked-read idioms whose arithmetic is checked (offset induction, per-entry stride, guard len==stride*n); every make is bounded by a length, a 16-bit field or a CBOR-delivered count; every loop is a range/counter/worklist loop; decoded sizes are added with overflow checks; decoded literals set the fields their accessors dereference.",
-		NotDecided: "panics inside the CBOR library or client StorableDecoder/TypeInfoDecoder callbacks (A-CBOR, A-CLIENT), allocation proportionality of nested content, runtime nil dereferences other than the accessor fields checked by P8.",
-		Technique:  "forward length-lower-bound dataflow with dominating-guard facts over go/ssa, loop-idiom recognisers, call-graph scoped lint rules",
+		NotDecided:  "panics inside the CBOR library or client StorableDecoder/TypeInfoDecoder callbacks (A-CBOR, A-CLIENT), allocation proportionality of nested content, runtime nil dereferences other than the accessor fields checked by P8.",
+		Technique:   "forward length-lower-bound dataflow with dominating-guard facts over go/ssa, loop-idiom recognisers, call-graph scoped lint rules",
 	}
 	propTable["C20"] = &PropSpec{
-		ID:    "C20",
-		Rules: []string{"X1", "X2", "X3", "S9"},
+		ID:          "C20",
+		Rules:       []string{"X1", "X2", "X3", "S9"},
 		Explanation: "reference enumeration is complete over slab/element kinds (type switches) and over reference-bearing fields (ChildStorables coverage); the three walkers recognise SlabIDStorable and descend through nested storables; getAllChildReferences splits broken from resolved references by the found flag; each failure mode of the property (second parent, owner mismatch, missing slab, root count, unreachable slab) controls an error return of CheckStorageHealth; the checker and the reference query cannot reach a writer of the write set or of registers. getAllChildReferences queues the children of every resolved slab on every path; CheckStorageHealth resolves every recorded reference against the slabs of the storage, not only those on a path from a childless slab to a root.",
-		NotDecided: "that the predicates are evaluated on the right ids for every storage (value-level).",
-		Technique:  "structural shape rules over go/ssa + call-graph reachability",
+		NotDecided:  "that the predicates are evaluated on the right ids for every storage (value-level).",
+		Technique:   "structural shape rules over go/ssa + call-graph reachability",
 	}
 	propTable["C14"] = &PropSpec{
-		ID:    "C14",
-		Rules: []string{"S3", "S4", "S5"},
+		ID:          "C14",
+		Rules:       []string{"S3", "S4", "S5"},
 		Explanation: "Structural necessary conditions of 'a failed commit loses nothing': in every function that writes registers, a write-set entry is deleted (and the cache updated) only on the err==nil edge of the BaseStorage write of the same id on all paths; each completed apply-loop iteration issues a write; every error of a register write, of EncodeSlab and of a worker result surfaces as a non-nil returned error with no storage-map or register write after it.",
-		NotDecided: "byte-identity of the ledger after retries (depends on encode determinism, C04/C07) and behaviour of the client BaseStorage.",
-		Technique:  "CFG path rules on go/ssa: must-precede / edge-dominance of delete(deltas) by the nil-error edge of the register write, loop-iteration coverage, error-edge reachability",
+		NotDecided:  "byte-identity of the ledger after retries (depends on encode determinism, C04/C07) and behaviour of the client BaseStorage.",
+		Technique:   "CFG path rules on go/ssa: must-precede / edge-dominance of delete(deltas) by the nil-error edge of the register write, loop-iteration coverage, error-edge reachability",
 	}
 }
-
